@@ -1,6 +1,6 @@
 """Configuration of ./check for C16 (see tools/props.py)."""
 ENTRY = {'coq_dir': 'C16',
- 'coq_deps': ['C15', 'C14', 'C17', 'Ts'],
+ 'coq_deps': ['C15', 'C14', 'C17', 'Ts', 'Link'],
  'harness': 'c16',
  'cases': {'quick': 6000, 'thorough': 160000},
  'consts': ['PARALLELISM_FACTOR', 'REPLICATION_FACTOR', 'KAD_READ_TIMEOUT_SECS', 'KAD_WRITE_TIMEOUT_SECS'],
@@ -91,19 +91,24 @@ ENTRY = {'coq_dir': 'C16',
  'level_note': 'Liveness is relative to the environment discharging its obligations within a bound D: for executor futures D is proved '
                '(WRITE_TIMEOUT + READ_TIMEOUT, Exec.v) and exercised with the paused clock; for substream opens the ANSWER is linked formally to '
                'coq/Ts (C16_link_service_feasible; C08_open_answered: exactly one answer unless the connection is reported closed), the deadline '
-               "behind it is the connection's / the keep-alive timeout of the service (C09_closes, C09_never_overdue), cited by name; for dials the "
-               "answers are C05's (C05_sys_progress, C05_sysT_progress, C05_tr_progress_dial, deadline: C05_tr_progress_open_expire), cited by name, "
-               "with the shape lemma C16_link_dial_answers. 'The requested quorum' is read with the clamp of PutToTargetPeersContext::new (a "
-               'deliberate, commented choice of the source: N(n) with fewer than n targets means every target): stated explicitly in '
-               'C16_quorum_clamp, not a finding. There is no query cancellation API. After the loop has ended the async methods of the handle still '
-               'return an id (the error of the closed channel is dropped; stale doc comments): modelled (h_closed), diffed, the oracle owes nothing '
-               'then - an observation, the node is shutting down. Not modelled: an ADD_PROVIDER message the store would accept arriving as a REPLY '
-               'on a request substream in composed mode (stored under a key the case does not describe; exercised in base mode where the store is '
-               'not modelled); ChannelClogged of open_substream / dial (same arms as the dead-task / dial-error results the harness produces). '
-               'C16_provided_has_timer needs `valid_run`: the store accepted the provider record of every refresh (it refuses only at its provider '
-               'capacity, C17). The harness exercises staleness at the two extremes (timeout unreachable / zero), the theorems cover every timeout. '
-               'Full buckets are reached by the F-C16e witness only. Store time is counted in ticks of 10 s: real time that elapses during a case '
-               '(milliseconds) cannot flip a comparison between whole ticks.',
+               "behind it can NOT be derived from C08 + C09 (link attempted, coq/Link/C16_Time.v: the service's logical clock times only the "
+               'keep-alive downgrade, C09_closes / C09_never_overdue, and an open in flight holds the connection, C09_busy_keeps_alive; '
+               "C16_service_open_wait_unbounded: for every D a history inside C08's contract keeps an accepted open in flight and unanswered at time "
+               "D) - it is the connection task's substream open timeout, an untimed event of the C07 model; D for opens therefore stays an "
+               "assumption; for dials the answers are C05's (C05_sys_progress, C05_sysT_progress, C05_tr_progress_dial, deadline: "
+               'C05_tr_progress_open_expire), cited by name (the manager / transport models have no clock: their deadlines are untimed events and '
+               "the progress theorems are existential over the environment's schedule, so no time bound can be derived; see coq/Link/C16_Time.v for "
+               "what a formal link would need), with the shape lemma C16_link_dial_answers. 'The requested quorum' is read with the clamp of "
+               'PutToTargetPeersContext::new (a deliberate, commented choice of the source: N(n) with fewer than n targets means every target): '
+               'stated explicitly in C16_quorum_clamp, not a finding. There is no query cancellation API. After the loop has ended the async methods '
+               'of the handle still return an id (the error of the closed channel is dropped; stale doc comments): modelled (h_closed), diffed, the '
+               'oracle owes nothing then - an observation, the node is shutting down. Not modelled: an ADD_PROVIDER message the store would accept '
+               'arriving as a REPLY on a request substream in composed mode (stored under a key the case does not describe; exercised in base mode '
+               'where the store is not modelled); ChannelClogged of open_substream / dial (same arms as the dead-task / dial-error results the '
+               'harness produces). C16_provided_has_timer needs `valid_run`: the store accepted the provider record of every refresh (it refuses '
+               'only at its provider capacity, C17). The harness exercises staleness at the two extremes (timeout unreachable / zero), the theorems '
+               'cover every timeout. Full buckets are reached by the F-C16e witness only. Store time is counted in ticks of 10 s: real time that '
+               'elapses during a case (milliseconds) cannot flip a comparison between whole ticks.',
  'trusted_base': ['the cfg(verif) probe inside `Kademlia::run` (two add-only statements: one log entry per engine action, one snapshot when the loop '
                   'is about to wait; the snapshot reads the glue maps, the engine, the k-buckets and the whole store; the store-ageing request is '
                   'applied there) and the public wrapper around the crate-private Kademlia object',
